@@ -40,7 +40,7 @@ CHECKS = {
  'C06': tv('For every (operator, operand type, operand shape) of a generated matrix (~1650 cases quick, ~3200 thorough) the Go one-liner is compiled by the real compiler and the emitted JavaScript, '
            'with the real prelude helpers ($mul64, $div64, $shiftLeft64, $imul, ...), is executed symbolically for ALL operand values; z3 (integer encoding, with a sound 128-bit bit-vector translation as '
            'fallback) decides per path that value and panic behaviour equal the operator table of the Go specification. Full operand width except 64-bit division/remainder (operands < 2^8 quick, 2^20 thorough). '
-           'float64 / float32 + - * / (also nested and with constants), negation and comparisons are covered with float32 semantics taken as "round the double result to single" (so what is decided for float32 is the operator and the placement of $fround); integer<->float conversions are in the thorough tier and mostly time out in z3 (reported inconclusive); complex arithmetic is not covered.', 'DESIGN.md §4 C06'),
+           'float64 / float32 + - * / (also nested and with constants), negation and comparisons are covered with float32 semantics taken as "round the double result to single" (so what is decided for float32 is the operator and the placement of $fround); float64 -> int32/uint32/int64/uint64 (every in-range double; words made from doubles keep a bit-vector view so the comparison stays inside the FP/BV theories) and int32/uint32 -> float32/float64 are decided in both tiers, the narrower and remaining conversions in the thorough tier; int64 -> float64/float32 through the general engine is inconclusive (Int<->BitVec bridge under a rounding), instead the prelude helper $flatten64ToFloat32 is translated from its current source text by engine/jsx/fn2smt.js into BitVec/Float64 terms and decided for all 2^64 arguments against (_ to_fp 8 24) RNE, with branch witnesses and native replay of any model; complex arithmetic is not covered.', 'DESIGN.md §4 C06'),
  'C07': tv('30 alias probes: every copying context (assign, call argument, return, range value, send, select-send, map/slice/field store, interface boxing, method value, value receiver, embedding, '
            'closure capture, dereference) and aliasing context (pointers to fields/elements/package variables, subslices, append within/over capacity, maps, closures, copy) with symbolic stored values; '
            'printed values must equal the specification for all int16 pairs and symbolic indices/lengths.', 'DESIGN.md §4 C07'),
